@@ -160,6 +160,10 @@ def check(run):
         else:
             run.unrecognised('R4', 'authority-split', H + '::forward_request', fr.loc(c), 'forward search for \':\' from a computed position (%s): cannot tell whether it skips a bracketed literal' % q.render(fr, c)[:80])
 
+    run.clause('(6) the headers the proxy forwards are the ones the client sent: header lines are split at their first colon (shared with C15)')
+    import p15
+    p15.header_split_rule(run)
+
     run.clause('(4) malformed or non-absolute requests close the client connection')
     thr = [n for n in fr.all_nodes() if n['k'] == 'throw']
     okt = any(any('http://' in q.render(fr, a) and p for a, p in q.guards_at(fr, n)) for n in thr)
